@@ -1,5 +1,9 @@
 import CuriesVerif.Check
 import CuriesVerif.Spec.W3C
+import CuriesVerif.Model.Reference
+import CuriesVerif.Model.Bulk
+import CuriesVerif.Model.Resolver
+import CuriesVerif.Model.Mapping
 
 /-!
 # JSON-lines driver
@@ -24,6 +28,100 @@ def handle (j : Json) : Except String Json := do
       | .error _ => pure []
     pure (Json.mkObj [("model", .arr (vals.map Codec.encVal).toArray),
       ("fail", .arr (fails.map Json.str).toArray)])
+  | "bulk" =>
+    -- {"k":"bulk","records":…,"delim":…,"meth":"compress",…,"amb":bool,"s":bool,"p":bool,"col":n,
+    --  "mode":"pd"|"file","target":n,"header":bool,"rows":[[cell,…],…]}
+    let recs ← Codec.records (← j.getObjVal? "records")
+    let delim ← Codec.str (Codec.fieldD j "delim" (.arr #[58]))
+    match Conv.init? recs delim with
+    | .error _ => throw "bad converter"
+    | .ok c =>
+      let meth ← (← j.getObjVal? "meth").getStr?
+      let f := Bulk.scalar c meth (Codec.boolD j "amb" false) (Codec.boolD j "s" false) (Codec.boolD j "p" false)
+      let col ← (← j.getObjVal? "col").getNat?
+      let rows ← (← (← j.getObjVal? "rows").getArr?).toList.mapM Codec.strs
+      let mode ← (← j.getObjVal? "mode").getStr?
+      if mode == "pd" then
+        let target ← (← j.getObjVal? "target").getNat?
+        match Bulk.pdMap f col target (rows.map fun r => r.map some) with
+        | .ok out => pure (Json.mkObj [("rows", .arr (out.map fun r => Json.arr (r.map Codec.encOptStr).toArray).toArray)])
+        | .error e => pure (Json.mkObj [("e", .str e.name)])
+      else
+        let (res, disk) := Bulk.fileHelper f col (Codec.boolD j "header" true) rows
+        pure (Json.mkObj [("result", match res with | .ok _ => Json.null | .error e => Json.str e.name),
+          ("rows", .arr (disk.map Codec.encStrs).toArray)])
+  | "resolve" =>
+    -- {"k":"resolve","records":…,"delim":…,"paths":[str,…]}  (paths without the leading "/")
+    let recs ← Codec.records (← j.getObjVal? "records")
+    let delim ← Codec.str (Codec.fieldD j "delim" (.arr #[58]))
+    match Conv.init? recs delim with
+    | .error _ => throw "bad converter"
+    | .ok c =>
+      let paths ← Codec.strs (← j.getObjVal? "paths")
+      let enc (r : Nat × Option Str) : Json := Json.arr #[Json.num (Lean.JsonNumber.fromNat r.1), Codec.encOptStr r.2]
+      pure (Json.mkObj [
+        ("flask", .arr (paths.map fun p => enc (Resolver.respond .flask c p)).toArray),
+        ("fastapi", .arr (paths.map fun p => enc (Resolver.respond .fastapi c p)).toArray)])
+  | "mapping" =>
+    -- {"k":"mapping","records":…,"invalid":[code points],"uris":[str,…]}
+    let recs ← Codec.records (← j.getObjVal? "records")
+    match Conv.init? recs with
+    | .error _ => throw "bad converter"
+    | .ok c =>
+      let invalid ← (← (Codec.fieldD j "invalid" (.arr #[])).getArr?).toList.mapM (·.getNat?)
+      let validIri : Str → Bool := fun s => s.all fun ch => !invalid.contains ch
+      let uris ← Codec.strs (← j.getObjVal? "uris")
+      pure (Json.mkObj [("answers", .arr (uris.map fun u => Codec.encStrs (Mapping.answers validIri c true u)).toArray)])
+  | "header" =>
+    -- {"k":"header","synonyms":[[k,v]…],"supported":[…],"default":str,"headers":[null | [[type,q]…],…]}
+    let syn ← Codec.pairs (← j.getObjVal? "synonyms")
+    let sup ← Codec.strs (← j.getObjVal? "supported")
+    let dflt ← Codec.str (← j.getObjVal? "default")
+    let hs ← (← (← j.getObjVal? "headers").getArr?).toList.mapM fun h =>
+      match h with
+      | .null => pure none
+      | _ => do
+        let ps ← (← h.getArr?).toList.mapM fun x => do
+          match (← x.getArr?).toList with
+          | [t, q] => pure (← Codec.str t, ← q.getNat?)
+          | _ => throw "part expected"
+        pure (some ps)
+    pure (Json.mkObj [("types", .arr (hs.map fun h => Codec.encStr (Mapping.handleHeader syn sup dflt h)).toArray)])
+  | "refs" =>
+    -- {"k":"refs","refs":[{"c":0..3,"p":str,"i":str,"n":str|null},…],"parse":[{"c":…,"s":str,"n":…},…],
+    --  "conv":records|null}
+    let decRef (x : Json) : Except String Ref := do
+      let c ← (← x.getObjVal? "c").getNat?
+      let cls : RefClass := match c with | 0 => .tuple | 1 => .reference | 2 => .namable | _ => .named
+      let name ← match Codec.fieldD x "n" .null with
+        | .null => pure none
+        | y => some <$> Codec.str y
+      pure { cls, pfx := ← Codec.str (← x.getObjVal? "p"), ident := ← Codec.str (← x.getObjVal? "i"), name }
+    let refs ← (← (← j.getObjVal? "refs").getArr?).toList.mapM decRef
+    let conv ← match Codec.fieldD j "conv" .null with
+      | .null => pure none
+      | rs => do
+        match Conv.init? (← Codec.records rs) with
+        | .ok c => pure (some c)
+        | .error _ => throw "bad converter"
+    let parses ← (← (Codec.fieldD j "parse" (.arr #[])).getArr?).toList.mapM fun x => do
+      let c ← (← x.getObjVal? "c").getNat?
+      let cls : RefClass := match c with | 0 => .tuple | 1 => .reference | 2 => .namable | _ => .named
+      let name ← match Codec.fieldD x "n" .null with
+        | .null => pure none
+        | y => some <$> Codec.str y
+      let useConv := Codec.boolD x "conv" false
+      pure (Ref.fromCurie cls (← Codec.str (← x.getObjVal? "s")) name (if useConv then conv else none))
+    let encRef (r : Ref) : Json := Json.mkObj [("p", Codec.encStr r.pfx), ("i", Codec.encStr r.ident),
+      ("n", Codec.encOptStr r.name)]
+    pure (Json.mkObj [
+      ("curies", .arr (refs.map fun r => Codec.encStr r.curie).toArray),
+      ("eq", .arr (refs.map fun a => Json.arr (refs.map fun b => Json.bool (a.eq b)).toArray).toArray),
+      ("hasheq", .arr (refs.map fun a => Json.arr (refs.map fun b => Json.bool (a.hashKey == b.hashKey)).toArray).toArray),
+      ("lt", .arr (refs.map fun a => Json.arr (refs.map fun b => Json.bool (a.lt b)).toArray).toArray),
+      ("parse", .arr (parses.map fun r => match r with
+        | .ok x => encRef x
+        | .error e => Json.mkObj [("e", .str e.name)]).toArray)])
   | "w3c" =>
     -- {"k":"w3c","space":[code points],"strs":[...],"obs":[[prefixBool,curieBool],…]}
     let sp ← (← (Codec.fieldD j "space" (.arr #[])).getArr?).toList.mapM (·.getNat?)
